@@ -19,7 +19,9 @@ RULE = ("case = initial account/slot table + script tree (depth <= 6, <= 60 ops,
         "on the real statedb.StateDB + bank keeper; blocked module accounts (distribution, fee collector) as credit targets so that the flush before a precompile call fails half-way; write-backs of tx-start values after later calls; evm.create on funded objects; first the historic failure shapes F2/F2b/F2c/F2d, probe16 and a 12-call "
         "script; THIRD DRIVER TestC04Tx: one real signed MsgEthereumTx per case through EvmKeeper.EthereumTx to a hand-assembled script contract that does SSTOREs, value transfers, "
         "self-call frames (kept / REVERT) and REAL FunToken precompile calls (sendToEvm, sendToBank, bankMsgSend, balance) for a unibi mapping, a tokenfactory-denom mapping and an "
-        "ERC20-born mapping whose token makes a nested failing oracle-precompile call; each call is translated into the model's script ops (non-unibi balances = pseudo accounts, "
+        "ERC20-born mapping whose token makes a nested failing oracle-precompile call, and REAL Wasm precompile calls (execute / executeMulti on a reflect.wasm instance owned by the "
+        "script contract, funds attached, re-dispatching bank sends of unibi / the tf denom and the EVM-module messages MsgConvertCoinToEvm / MsgCreateFunToken, direct and inside authz "
+        "MsgExec, which must be refused inside a running EVM tx); each call is translated into the model's script ops (non-unibi balances = pseudo accounts, "
         "ERC20 ledgers = storage) and the same model / Pb are evaluated; non-trivial = a frame (or failing call) that contains a precompile call is reverted while an EVM write or "
         "bank move made before/inside/after it has to be kept or dropped; distinct = distinct input")
 ASSUMPTIONS = [
@@ -98,7 +100,41 @@ _BASE = {"u": 0, "d": 20, "e": 30}
 _FAIL_AMT = 1000000
 
 
+def _wasm_exec(msgs, funds):
+    """body ops of one Wasm.execute(W, reflect_msg{msgs}, funds), or None when it fails (W = holder 6)"""
+    body = []
+    for tok, amt in funds:                                  # coins sent C -> W with the call
+        if amt <= 0 or amt >= _FAIL_AMT:
+            return None
+        body.append(["bs", _BASE[tok] + 1, _BASE[tok] + 6, amt])
+    for m in msgs:
+        while m[0] == "exec":                               # authz MsgExec{grantee W, [m]}: as m
+            m = m[1]
+        if m[0] != "send":
+            return None                                     # MsgConvertCoinToEvm / MsgCreateFunToken: refused inside an EVM tx
+        tok, amt, to = m[1], m[2], m[3]
+        if amt <= 0 or amt >= _FAIL_AMT:
+            return None
+        body.append(["bs", _BASE[tok] + 6, _BASE[tok] + to, amt])
+        if tok != "u":
+            body.append(["ab", to, 0])                      # the bank creates the recipient's auth account
+    return body
+
+
+def _tx_wasm(o):
+    execs = [[o[1], o[2]]] if o[0] == "wx" else o[1]
+    body = []
+    for msgs, funds in execs:
+        b = _wasm_exec(msgs, funds)
+        if b is None:
+            return ["pc", [], True]                         # the whole precompile call fails and is reverted
+        body += b
+    return ["pc", body, False]
+
+
 def _tx_call(o):
+    if o[0] in ("wx", "wxm"):
+        return _tx_wasm(o)
     k, tok = o[0], o[1]
     if k == "qb":
         return ["pc", [], False]
@@ -120,6 +156,23 @@ def _tx_call(o):
             return ["pc", [["is", t, 1, -x], ["is", t, 5, x], oracle, ["bs", b + 9, b + 5, x], ["bs", b + 5, b + to, x]] + mk, False]
         return ["pc", [["is", t, 1, -x], ["is", t, 5, x], ["is", t, 5, -x], ["is", t, 9, -x], ["bs", b + 5, b + to, x]] + mk, False]
     raise ValueError("unknown tx op %r" % (o,))
+
+
+def _wasm_tag(o):
+    """kinds of messages a wasm call re-dispatches (for histograms / signatures)"""
+    if o[0] not in ("wx", "wxm"):
+        return ""
+    execs = [[o[1], o[2]]] if o[0] == "wx" else o[1]
+    kinds = set()
+    for msgs, funds in execs:
+        if funds:
+            kinds.add("funds")
+        for m in msgs:
+            pre = ""
+            while m[0] == "exec":
+                pre, m = "authz-", m[1]
+            kinds.add(pre + m[0])
+    return "[" + ",".join(sorted(kinds)) + "]"
 
 
 def _tx_script(ops):
@@ -254,7 +307,7 @@ def classify(rec):
                 if o[0] == "fr":
                     yield from walk(o[1], rev or o[2])
                 else:
-                    yield "tx:" + o[0] + ("/" + o[1] if o[0] in ("ste", "stb", "bms", "qb") else "") + ("/in-reverted-frame" if rev else "")
+                    yield "tx:" + o[0] + ("/" + o[1] if o[0] in ("ste", "stb", "bms", "qb") else "") + _wasm_tag(o) + ("/in-reverted-frame" if rev else "")
         ks += sorted(set(walk(rec["input"]["tx"], False)))
     return ks
 
@@ -271,7 +324,7 @@ def signature(rec):
                     yield "fr/rev" if o[2] else "fr"
                     yield from walk(o[1])
                 else:
-                    yield o[0] + ("/" + o[1] if o[0] in ("ste", "stb", "bms", "qb") else "")
+                    yield o[0] + ("/" + o[1] if o[0] in ("ste", "stb", "bms", "qb") else "") + _wasm_tag(o)
         return {"kind": "frame-atomicity", "driver": "tx", "ops": sorted(set(walk(rec["input"]["tx"])))}
     kinds = sorted({o[0] + ("/rev" if o[0] in ("fr", "pc") and o[2] else "") for o, _, _ in _walk(_script(rec["input"]))})
     return {"kind": "frame-atomicity", "ops": kinds}
@@ -291,6 +344,20 @@ def _tx_variants(body):
                 res.append(body[:i] + o[1] + body[i + 1:])            # inline a kept frame
             for sub in _tx_variants(o[1]):
                 res.append(body[:i] + [["fr", sub, o[2]]] + body[i + 1:])
+        if o[0] in ("wx", "wxm"):
+            execs = [[o[1], o[2]]] if o[0] == "wx" else o[1]
+            if len(execs) > 1:
+                for j in range(len(execs)):                                    # a single execute of a multi call
+                    res.append(body[:i] + [["wx", execs[j][0], execs[j][1]]] + body[i + 1:])
+            else:
+                msgs, funds = execs[0]
+                if funds:
+                    res.append(body[:i] + [["wx", msgs, []]] + body[i + 1:])
+                for j in range(len(msgs)):
+                    if len(msgs) > 1:
+                        res.append(body[:i] + [["wx", msgs[:j] + msgs[j + 1:], funds]] + body[i + 1:])
+                    if msgs[j][0] == "exec":                                    # unwrap authz
+                        res.append(body[:i] + [["wx", msgs[:j] + [msgs[j][1]] + msgs[j + 1:], funds]] + body[i + 1:])
         if o[0] in ("ste", "stb", "bms") and 1 < o[2] < _FAIL_AMT:
             res.append(body[:i] + [[o[0], o[1], 1, o[3]]] + body[i + 1:])   # smallest amount
     return res
@@ -349,7 +416,8 @@ MANIFEST = {
                  "main model for live:=true). The design's proof plan P1-P5 was completed; the bounded fallback "
                  "was not needed. The model is run on every check against the real code on the same generated scripts (three drivers: the "
                  "StateDB API calls one by one, through precompile.OnRunStart, and REAL TRANSACTIONS - signed MsgEthereumTx to a script "
-                 "contract calling the real FunToken precompile for unibi, a tokenfactory denom and an ERC20-born mapping, in kept and "
+                 "contract calling the real FunToken precompile for unibi, a tokenfactory denom and an ERC20-born mapping, and the real Wasm "
+                 "precompile on reflect.wasm (bank sends, funds, contract-dispatched EVM-module messages that must be refused), in kept and "
                  "reverted frames, observing bank balances and supplies of all three denoms, the ERC20 ledgers and contract storage) and the "
                  "proved-sound checker Pb (reference vs observed) is evaluated on those traces; the call limit, the shape "
                  "of its check, the OnRunStart call order and the set of precompile entry points are re-extracted from /repo."),
@@ -359,7 +427,7 @@ MANIFEST = {
                    "Go: the tie is the correspondence run (0 mismatches required) + generated facts. Precompile bodies are scripts "
                    "of unibi bank sends, StateDB writes, frames and nested precompile calls (what an EVM call made from inside a "
                    "body amounts to at the vm.StateDB interface); non-unibi coins are carried by the same bank ledger as balances of pseudo accounts (transaction driver); "
-                   "wasm state (same cache multistore, same snapshot; the Wasm precompile is not exercised), code table, gas and events "
+                   "wasm CONTRACT state (same cache multistore, same snapshot) is not observed - the bank writes of wasm-dispatched messages are -, code table, gas and events "
                    "are not modelled; the transaction driver does not observe nonces, code, logs, refund or access lists (the API drivers do). Domain `wf` excludes bank sends "
                    "from/to an account that self-destructed earlier in the tx (there the bank sees 0 while the StateDB shows "
                    "later credits - documented boundary) and evm.create on an address with storage written in the tx. "
